@@ -32,6 +32,9 @@ pub enum Kind {
     /// client roles: PUBREL carrying the id of the nearest earlier QoS 1 publish whose handler is still running (the only
     /// PUBREL a client hands to its protocol handler); that publish is kept deferred until the PUBREL has arrived
     PubRelOf,
+    /// server roles: the PUBREL of the nearest earlier `PubRel` once more, arriving while the protocol handler of the first is
+    /// still running (that handler is kept deferred until the repeat has been read); both are requests, both get a PUBCOMP
+    PubRelAgain,
 }
 
 /// `PubRelOf` resolved: the kinds actually sent (a `PubRelOf` without a free earlier QoS 1 publish becomes a QoS 1 publish)
@@ -45,6 +48,14 @@ fn resolve(kinds: &[Kind]) -> (Vec<Kind>, Vec<Option<usize>>) {
             match t {
                 Some(t) => target[i] = Some(t),
                 None => eff[i] = Kind::Pub1,
+            }
+        }
+        if kinds[i] == Kind::PubRelAgain {
+            // (a `PubRelAgain` without a free earlier `PubRel` is a `PubRel` of its own)
+            let t = (0..i).rev().find(|j| eff[*j] == Kind::PubRel && !target.contains(&Some(*j)));
+            match t {
+                Some(t) => target[i] = Some(t),
+                None => eff[i] = Kind::PubRel,
             }
         }
     }
@@ -105,14 +116,15 @@ pub async fn run_case(c: Case) -> Result<CaseInfo, Failure> {
     cfg.v5.router = c.router;
     let eut = Eut::start(c.role, &cfg).await;
     eut.handshake(&cfg).await;
-    let n_relof = resolve(&c.kinds).1.iter().filter(|t| t.is_some()).count();
+    let n_relof = { let (eff, t) = resolve(&c.kinds); if t.iter().any(Option::is_some) { eff.iter().filter(|k| matches!(k, Kind::PubRel | Kind::PubRelOf | Kind::PubRelAgain)).count() } else { 0 } };
     let res = run_case_on(c, &eut).await;
     if res.is_err() && n_relof > 0 {
-        // a PUBREL for the id of a running QoS 1 publish comes from a peer that is itself out of line; the case is judged
-        // only if the library took every such PUBREL for a request (its protocol handler was called)
+        // a PUBREL for the id of a running QoS 1 publish (clients) or a PUBREL repeated while the first is being handled (servers)
+        // comes from a peer that is itself at the edge of the protocol; the case is judged only if the library took every PUBREL
+        // for a request (its protocol handler was called)
         let accepted = eut.app().events().iter().filter(|e| matches!(e, Ev::CtlEnter { kind: CtlKind::PubRel, .. })).count();
         if accepted < n_relof && std::env::var_os("VERIF_C04_NOMASK").is_none() {
-            return Ok(CaseInfo::trivial().label("client-pubrel-not-accepted"));
+            return Ok(CaseInfo::trivial().label("odd-pubrel-not-accepted"));
         }
     }
     res
@@ -146,6 +158,7 @@ async fn run_case_on(c: Case, eut: &Eut) -> Result<CaseInfo, Failure> {
     let mut has_resp: Vec<bool> = Vec::new();
     let mut frames: Vec<Vec<u8>> = Vec::new();
     let (mut np, mut nc, mut nrel) = (0u32, 0u32, 0u16);
+    let mut rel_id: Vec<u16> = vec![0; n];
     for (i, k) in kinds.iter().enumerate() {
         let pid = i as u16 + 1;
         let (pkt, exp, g) = match k {
@@ -158,6 +171,7 @@ async fn run_case_on(c: Case, eut: &Eut) -> Result<CaseInfo, Failure> {
             Kind::Pub2 => (P5::Publish(Box::new(s5::Publish5 { qos: 2, pid: Some(pid), topic: "t/b".into(), ..Default::default() })), (5, pid), (G_PUB, pub_base + np)),
             Kind::PubRel => {
                 let id = 100 + nrel;
+                rel_id[i] = id;
                 nrel += 1;
                 // v5: every second PUBREL carries the (valid) reason code 0x92 and a reason string: its PUBCOMP is due all the same
                 let a = if c.role.is_v5() && nrel % 2 == 0 { s5::Ack5 { pid: id, reason: 0x92, reason_string: Some("gone".into()), ..Default::default() } } else { s5::Ack5 { pid: id, ..Default::default() } };
@@ -170,6 +184,10 @@ async fn run_case_on(c: Case, eut: &Eut) -> Result<CaseInfo, Failure> {
             Kind::Pub0 => (P5::Publish(Box::new(s5::Publish5 { qos: 0, pid: None, topic: "t/a".into(), ..Default::default() })), (0, 0), (G_PUB, pub_base + np)),
             Kind::PubRelOf => {
                 let id = target[i].map_or(0, |t| t as u16 + 1);
+                (P5::PubRel(s5::Ack5 { pid: id, ..Default::default() }), (7, id), (G_CTL, nc))
+            }
+            Kind::PubRelAgain => {
+                let id = target[i].map_or(0, |t| rel_id[t]);
                 (P5::PubRel(s5::Ack5 { pid: id, ..Default::default() }), (7, id), (G_CTL, nc))
             }
         };
@@ -196,11 +214,15 @@ async fn run_case_on(c: Case, eut: &Eut) -> Result<CaseInfo, Failure> {
             _ => false,
         })
     };
+    let sent_upto = std::cell::Cell::new(0usize);
     // has the PUBREL that refers to publish `ri` (if any) reached the protocol handler?  (the k-th such PUBREL is the k-th
     // PUBREL the protocol handler sees)
     let rel_entered = |app: &App, ri: usize| -> bool {
         match (0..n).find(|j| target[*j] == Some(ri)) {
             None => true,
+            // the repeat of a PUBREL waits behind the first in the endpoint's buffer: it has "arrived" once everything
+            // written so far has been read
+            Some(j) if kinds[j] == Kind::PubRelAgain => sent_upto.get() > j && eut.peer().unread() == 0,
             Some(j) => {
                 let rank = (0..j).filter(|i| target[*i].is_some()).count();
                 app.log.borrow().iter().filter(|e| matches!(e, Ev::CtlEnter { kind: CtlKind::PubRel, .. })).count() > rank
@@ -231,7 +253,7 @@ async fn run_case_on(c: Case, eut: &Eut) -> Result<CaseInfo, Failure> {
         }
         let ready = has_resp[..lead].iter().filter(|h| **h).count();
         if got.len() > ready {
-            return Err(fail(&c, "response-before-handler", format!("{} responses written but only {ready} leading requests completed", got.len())));
+            return Err(fail(&c, "response-before-handler", format!("{} responses written {got:?} but only {ready} leading requests completed; log {:?}", got.len(), crate::props::c03::brief_log(&eut.app().events()))));
         }
         // (promptness is not part of the statement: a completed response may still be in the
         // library's hands at an intermediate point; a response that never appears is caught by the
@@ -273,6 +295,7 @@ async fn run_case_on(c: Case, eut: &Eut) -> Result<CaseInfo, Failure> {
         }
         eut.peer().send(&group);
         start = end;
+        sent_upto.set(end);
         if c.settle_between || gi + 1 == bounds.len() {
             eut.settle().await;
             observe(&eut, end, stalled, false)?;
@@ -351,8 +374,11 @@ async fn run_case_on(c: Case, eut: &Eut) -> Result<CaseInfo, Failure> {
     if c.stall.is_some() {
         info.labels.push("stall-episode");
     }
-    if target.iter().any(Option::is_some) {
+    if kinds.iter().any(|k| *k == Kind::PubRelOf) {
         info.labels.push("client-pubrel-for-running-publish");
+    }
+    if kinds.iter().any(|k| *k == Kind::PubRelAgain) {
+        info.labels.push("pubrel-repeated-while-first-is-handled");
     }
     if had_bp {
         info.labels.push("write-backpressure-reported");
@@ -367,8 +393,8 @@ pub fn check_case(c: &Case) -> Result<CaseInfo, Failure> {
 
 pub fn kinds_for(role: Role) -> Vec<Kind> {
     match role {
-        Role::V3Server => vec![Kind::Pub1, Kind::Pub2, Kind::PubRel, Kind::Sub, Kind::Unsub, Kind::Ping, Kind::Pub0],
-        Role::V5Server => vec![Kind::Pub1, Kind::Pub2, Kind::Pub1Neg, Kind::Pub1ErrAck, Kind::PubRel, Kind::Sub, Kind::Unsub, Kind::Ping, Kind::Auth, Kind::Pub0],
+        Role::V3Server => vec![Kind::Pub1, Kind::Pub2, Kind::PubRel, Kind::Sub, Kind::Unsub, Kind::Ping, Kind::Pub0, Kind::PubRelAgain],
+        Role::V5Server => vec![Kind::Pub1, Kind::Pub2, Kind::Pub1Neg, Kind::Pub1ErrAck, Kind::PubRel, Kind::Sub, Kind::Unsub, Kind::Ping, Kind::Auth, Kind::Pub0, Kind::PubRelAgain],
         Role::V5Client => vec![Kind::Pub1, Kind::Pub1Neg, Kind::Pub0, Kind::PubRelOf],
         _ => vec![Kind::Pub1, Kind::Pub0, Kind::PubRelOf],
     }
@@ -441,11 +467,13 @@ fn exhaustive(ctx: &Ctx) -> Stats {
         (Role::V3Client, vec![Kind::Pub1, Kind::Pub0, Kind::Pub1, Kind::Pub0, Kind::Pub1][..n].to_vec()),
         (Role::V3Client, vec![Kind::Pub1, Kind::PubRelOf, Kind::Pub1, Kind::PubRelOf, Kind::Pub1][..n].to_vec()),
         (Role::V5Client, vec![Kind::Pub1, Kind::Pub1, Kind::PubRelOf, Kind::PubRelOf, Kind::Pub1][..n].to_vec()),
+        (Role::V5Server, vec![Kind::PubRel, Kind::PubRelAgain, Kind::Ping, Kind::Pub1, Kind::Sub][..n].to_vec()),
+        (Role::V3Server, vec![Kind::Pub1, Kind::PubRel, Kind::PubRelAgain, Kind::Ping, Kind::Pub1][..n].to_vec()),
     ];
     let mut work: Vec<Case> = Vec::new();
     for (pi, (role, kinds)) in patterns.iter().enumerate() {
         // the last two patterns (client PUBREL) also through the client's resource() routes, pattern 0 through the server's router
-        let routed = pi == 0 || pi + 2 >= patterns.len();
+        let routed = pi == 0 || (pi + 4 >= patterns.len() && pi + 2 < patterns.len());
         for mask in 0u32..(1 << n) {
             let deferred: Vec<u8> = (0..n as u8).filter(|i| mask >> i & 1 == 1).collect();
             for perm in permutations(&deferred) {
@@ -488,8 +516,8 @@ pub fn run(ctx: &Ctx, started: Instant) -> i32 {
     stats.merge(rnd);
     let report = Report {
         level: "exploration",
-        rule: "exhaustive: for 14 request-kind patterns of length 4 (quick) / 5 (thorough) every immediate/deferred mask x every completion permutation x {one write, one write per request} (three patterns also with the publishes going through the topic router / the client's resource() routes); \
-               random: 2..7 requests from {PUBLISH QoS1, PUBLISH QoS2, PUBREL of an earlier completed first leg, SUBSCRIBE, UNSUBSCRIBE, PINGREQ, v5 AUTH, PUBLISH QoS 0 (no response); client roles: PUBLISH QoS 0/1 and PUBREL carrying the id of a QoS 1 publish whose handler is still running} with generated write groupings, \
+        rule: "exhaustive: for 16 request-kind patterns of length 4 (quick) / 5 (thorough) every immediate/deferred mask x every completion permutation x {one write, one write per request} (three patterns also with the publishes going through the topic router / the client's resource() routes); \
+               random: 2..7 requests from {PUBLISH QoS1, PUBLISH QoS2, PUBREL of an earlier completed first leg, SUBSCRIBE, UNSUBSCRIBE, PINGREQ, v5 AUTH, PUBLISH QoS 0 (no response), a PUBREL repeated while the first is being handled; client roles: PUBLISH QoS 0/1 and PUBREL carrying the id of a QoS 1 publish whose handler is still running} with generated write groupings, \
                gate openings interleaved with arrivals, optional stalled-peer episode with an 8-byte write watermark. Oracle at every settle point: responses on the wire (type, packet id) are a \
                prefix of the arrival order, exactly as long as the longest prefix of completed requests; at the end the full order; protocol handlers never overlap. \
                Non-trivial = at least one request completed while an earlier one was still pending; distinct = the whole case"
